@@ -278,22 +278,34 @@ def own_name(nm, var):
     return (nm[0] if nm else None) == var
 
 
+def ambiguous_name(nm, var):
+    """a by-name operation of the univariate type is specified for the polynomial's own variable (and documented to
+    return a clone for a foreign one); a longer name that merely starts with the letter - or the empty name on a
+    constant polynomial - is neither: the oracle accepts both answers"""
+    if var is None:
+        return nm == ''
+    return len(nm) > 1 and nm[0] == var
+
+
 def simple_chain(st, ops):
-    """exact coefficient list after the chain on an 's' structure -> (coefs, last kind or None)"""
+    """exact coefficient lists the chain may produce on an 's' structure -> [(coefs, kind of the last effective op)]"""
     _, coefs, var = st
-    cs = [Fr(c) for c in coefs]
-    last = None
-    for o, nm in ops:
-        if o in ('dm', 'im') and not own_name(nm, var):
-            last = None                        # foreign name: a clone
-            continue
-        if o in ('du', 'dm'):
-            cs = [c * i for i, c in enumerate(cs)][1:]
-            last = 'd'
-        else:
-            cs = [Fr(0)] + [c / (i + 1) for i, c in enumerate(cs)]
-            last = 'i'
-    return cs, last
+    cands = [([Fr(c) for c in coefs], None)]
+    for k, (o, nm) in enumerate(ops):
+        out = []
+        for cs, last in cands:
+            by_name = o in ('dm', 'im')
+            if by_name and ambiguous_name(nm, var) and k == len(ops) - 1:
+                out.append((cs, None))
+            elif by_name and not own_name(nm, var):
+                out.append((cs, None))             # foreign name: a clone
+                continue
+            if o in ('du', 'dm'):
+                out.append(([c * i for i, c in enumerate(cs)][1:], 'd'))
+            else:
+                out.append(([Fr(0)] + [c / (i + 1) for i, c in enumerate(cs)], 'i'))
+        cands = out
+    return cands
 
 
 def s_eval(cs, x):
@@ -339,7 +351,7 @@ def join_terms(rng, parts):
 
 
 def gen_simple(rng):
-    cls = rng.choice(['dense', 'dense', 'dense', 'sparse', 'repeat', 'const', 'linear', 'unicode', 'empty', 'high'])
+    cls = rng.choice(['dense'] * 6 + ['sparse', 'repeat', 'const', 'linear', 'unicode', 'high'] * 2 + ['empty'])
     if cls == 'empty':
         return cls, [0.0], None, ''
     var = rng.choice(LETTERS)
@@ -397,7 +409,7 @@ def exp_val(txt):
 
 def gen_inter(rng):
     cls = rng.choice(['const', 'uni_int', 'uni_int', 'uni_neg', 'uni_frac', 'multi_int', 'multi_int', 'multi_mixed',
-                      'multi_mixed', 'repeat', 'zeroexp', 'empty', 'uni_int0'])
+                      'multi_mixed', 'repeat', 'zeroexp', 'uni_int0'] * 4 + ['empty'])
     if cls == 'empty':
         return cls, [], [], ''
     if cls == 'const':
@@ -486,11 +498,11 @@ def pick_point(rng, d):
 def pick_name(rng, letters, integrate):
     k = rng.random()
     absent = [l for l in 'xyzuvw' if l not in letters]
-    if letters and k < 0.62:
+    if letters and k < 0.72:
         return rng.choice(letters)
-    if k < 0.8:
+    if k < 0.85:
         return rng.choice(absent)
-    if k < 0.95:
+    if k < 0.96:
         base = rng.choice(letters) if letters and rng.random() < 0.7 else rng.choice(absent)
         return base + rng.choice(['y', base, 'x1', 'yz'])
     return ''
@@ -543,8 +555,8 @@ def f_of(fr):
 
 
 def gen_cases(rng, tier, flavour):
-    n_s = 500 if tier == 'quick' else 8000
-    n_i = 1300 if tier == 'quick' else 24000
+    n_s = 800 if tier == 'quick' else 8000
+    n_i = 2400 if tier == 'quick' else 24000
     for _ in range(n_s):
         cls, coefs, var, src = gen_simple(rng)
         st = ('s', coefs, var)
@@ -553,11 +565,23 @@ def gen_cases(rng, tier, flavour):
         for k in range(depth):
             kind = ('d' if flavour == 'deriv' else 'i') if k == 0 else rng.choice(['d', 'i'])
             r = rng.random()
-            if r < 0.55:
+            if r < 0.5:
                 ops.append(('du' if kind == 'd' else 'iu', None))
             else:
-                own = var if var is not None else ''
-                nm = rng.choice([own, own, own + 'y' if own else 'q', rng.choice(LETTERS), '', own + own])
+                other = rng.choice([l for l in LETTERS if l != var])
+                q = rng.random()
+                if var is not None and q < 0.55:
+                    nm = var                                  # its own variable
+                elif q < 0.78:
+                    nm = other                                # a foreign letter: a clone
+                elif q < 0.88:
+                    nm = other + rng.choice(['y', other, (var or 'z')])
+                elif q < 0.93 and var is not None:
+                    nm = ''
+                elif k == depth - 1:
+                    nm = (var + rng.choice(['y', var, 'x1'])) if var is not None else ''   # neither own nor foreign
+                else:
+                    nm = other
                 ops.append(('dm' if kind == 'd' else 'im', nm))
         r = rng.random()
         if flavour == 'integ' and r < 0.45:
@@ -778,7 +802,6 @@ def judge_final_inter(rex, rterms, rvars, final, vals):
 
 
 def judge_simple(st, src, ops, final, res):
-    cs, last = simple_chain(st, ops)
     if res[0] != 'P':
         return 'no polynomial returned: ' + str(res[1])[:60]
     _, (k, rcoefs, rvar), u, vals = res
@@ -792,15 +815,21 @@ def judge_simple(st, src, ops, final, res):
     if any(math.isinf(c) or c != c for c in rcoefs):
         return 'non-finite coefficient'
     depth = max(1, len(ops))
-    for x in (Fr(0), Fr(1), Fr(-1), Fr(3, 2), Fr(-5, 4), Fr(2), Fr(1, 3), Fr(-7, 3)):
-        want, got = s_eval(cs, x), s_eval(rcs, x)
-        tol = (sum(abs(c) * abs(x) ** i for i, c in enumerate(cs)) + sum(abs(c) * abs(x) ** i for i, c in enumerate(rcs))) * depth * 2 * EPS
-        if abs(want - got) > tol:
-            return 'result does not evaluate to the exact %s of the source' % ('derivative' if last == 'd' else 'result of the chain')
-    if last == 'i' and rcs and rcs[0] != 0:
-        return 'constant of integration is not zero'
-    if last == 'i' and not rcs:
-        return 'indefinite integral has no coefficients'
+
+    def structure(cs, last):
+        for x in (Fr(0), Fr(1), Fr(-1), Fr(3, 2), Fr(-5, 4), Fr(2), Fr(1, 3), Fr(-7, 3)):
+            want, got = s_eval(cs, x), s_eval(rcs, x)
+            tol = (sum(abs(c) * abs(x) ** i for i, c in enumerate(cs)) + sum(abs(c) * abs(x) ** i for i, c in enumerate(rcs))) * depth * 2 * EPS
+            if abs(want - got) > tol:
+                return 'result does not evaluate to the exact %s of the source' % ('derivative' if last == 'd' else 'result of the chain')
+        if last == 'i' and rcs and rcs[0] != 0:
+            return 'constant of integration is not zero'
+        if last == 'i' and not rcs:
+            return 'indefinite integral has no coefficients'
+        return None
+    verdicts = [structure(cs, last) for cs, last in simple_chain(st, ops)]
+    if all(verdicts):
+        return verdicts[-1]
     kind, arg = final
     if kind == 'none':
         return None
